@@ -430,6 +430,9 @@ typedef struct {
   ares_int64_t    now_us;
   ares_uint64_t   rng;
   long            idseq; /* -1 = random */
+  unsigned short  idlist[64]; /* idlist=: ids handed out first */
+  int             nidlist;
+  int             idlist_i;
   /* sockets */
   vsock_t        *socks;
   size_t          nsocks;
@@ -456,6 +459,8 @@ typedef struct {
   int             sockstatecb;
   int             pendingwritecb;
   int             serverstatecb;
+  int             qdump;      /* qdump=1: log QSTATE */
+  char           *qdump_last; /* last QSTATE text printed */
   /* alloc */
   int             alloc_report;
   size_t          opno;
@@ -495,6 +500,9 @@ void __wrap_ares_rand_bytes(ares_rand_state *state, unsigned char *buf,
 unsigned short __wrap_ares_generate_new_id(ares_rand_state *state)
 {
   (void)state;
+  if (G.idlist_i < G.nidlist) {
+    return G.idlist[G.idlist_i++];
+  }
   if (G.idseq >= 0) {
     unsigned short id = (unsigned short)(G.idseq & 0xFFFF);
     G.idseq           = (G.idseq + 1) & 0xFFFF;
@@ -1254,6 +1262,103 @@ static int v_connect(ares_socket_t fd, const struct sockaddr *addr,
   return 0;
 }
 
+
+/* ------------------------------------------------------------------------- */
+/* qdump=1: QSTATE (internal query / connection / cookie state)               */
+/* ------------------------------------------------------------------------- */
+static void qstate_dump(void)
+{
+  sb_t               sb;
+  ares_llist_node_t *n;
+  ares_slist_node_t *sn;
+  int                first = 1;
+  int                i;
+  if (!G.qdump || G.channel == NULL || G.destroyed || G.in_destroy) {
+    return;
+  }
+  sb_init(&sb);
+  sb_puts(&sb, "QSTATE q=[");
+  for (n = ares_llist_node_first(G.channel->all_queries); n != NULL;
+       n = ares_llist_node_next(n)) {
+    const ares_query_t *q   = ares_llist_node_val(n);
+    const tok_t        *arg = (const tok_t *)q->arg;
+    sb_printf(&sb, "%s%u/", first ? "" : ",", (unsigned int)q->qid);
+    first = 0;
+    if (arg >= G.tok && arg < G.tok + MAX_TOK) {
+      sb_printf(&sb, "t%d/", (int)(arg - G.tok));
+    } else {
+      sb_puts(&sb, "-/");
+    }
+    if (q->conn != NULL) {
+      sb_printf(&sb, "s%d/", (int)(q->conn->fd - FD_BASE));
+    } else {
+      sb_puts(&sb, "-/");
+    }
+    sb_printf(&sb, "%d/%zu/%zu/%zu/%d", q->using_tcp ? 1 : 0, q->try_count,
+              q->cookie_try_count, q->timeouts, q->no_retries ? 1 : 0);
+  }
+  sb_puts(&sb, "] srv=[");
+  first = 1;
+  for (i = 0; i < G.nsrv; i++) {
+    for (sn = ares_slist_node_first(G.channel->servers); sn != NULL;
+         sn = ares_slist_node_next(sn)) {
+      const ares_server_t *s = ares_slist_node_val(sn);
+      char                 a[64];
+      a[0] = 0;
+      ares_inet_ntop(s->addr.family, &s->addr.addr, a, sizeof(a));
+      if (strcmp(a, G.srvaddr[i]) != 0) {
+        continue;
+      }
+      sb_printf(&sb, "%s%d/%zu/%d/", first ? "" : ",", i, s->consec_failures,
+                (int)s->cookie.state);
+      first = 0;
+      sb_hex(&sb, s->cookie.client, sizeof(s->cookie.client));
+      sb_putc(&sb, '/');
+      if (s->cookie.server_len > 0 &&
+          s->cookie.server_len <= sizeof(s->cookie.server)) {
+        sb_hex(&sb, s->cookie.server, s->cookie.server_len);
+      } else {
+        sb_putc(&sb, '-');
+      }
+      sb_printf(&sb, "/%lld.%u", (long long)s->cookie.unsupported_ts.sec,
+                (unsigned int)s->cookie.unsupported_ts.usec);
+      break;
+    }
+  }
+  sb_puts(&sb, "] conns=[");
+  first = 1;
+  for (sn = ares_slist_node_first(G.channel->servers); sn != NULL;
+       sn = ares_slist_node_next(sn)) {
+    const ares_server_t *s = ares_slist_node_val(sn);
+    char                 a[64];
+    int                  si = -1;
+    a[0] = 0;
+    ares_inet_ntop(s->addr.family, &s->addr.addr, a, sizeof(a));
+    for (i = 0; i < G.nsrv; i++) {
+      if (strcmp(a, G.srvaddr[i]) == 0) {
+        si = i;
+        break;
+      }
+    }
+    for (n = ares_llist_node_first(s->connections); n != NULL;
+         n = ares_llist_node_next(n)) {
+      const ares_conn_t *c = ares_llist_node_val(n);
+      sb_printf(&sb, "%ss%d/%d/%d/%zu", first ? "" : ",",
+                (int)(c->fd - FD_BASE), si,
+                (c->flags & ARES_CONN_FLAG_TCP) ? 1 : 0,
+                ares_llist_len(c->queries_to_conn));
+      first = 0;
+    }
+  }
+  sb_puts(&sb, "]");
+  if (G.qdump_last == NULL || strcmp(G.qdump_last, sb.b) != 0) {
+    free(G.qdump_last);
+    G.qdump_last = xstrdup(sb.b);
+    ev_sb(&sb);
+  }
+  sb_free(&sb);
+}
+
 static ares_ssize_t v_recvfrom(ares_socket_t fd, void *buffer, size_t length,
                                int flags, struct sockaddr *address,
                                ares_socklen_t *address_len, void *ud)
@@ -1267,6 +1372,7 @@ static ares_ssize_t v_recvfrom(ares_socket_t fd, void *buffer, size_t length,
     errno = EBADF;
     return -1;
   }
+  qstate_dump();
   e = fail_check(CALL_RECVFROM);
   if (e) {
     ev("RECVFROM s%d rc=-1 errno=%s", idx, errno_name(e));
@@ -2623,7 +2729,9 @@ static int build_response(const tx_t *t, const char *spec, rsp_t *out,
                                                 0x52, 0x56, 0x30, 0x31 };
       *err = "cookie";
       if (strcmp(cookie, "echo") == 0 || strncmp(cookie, "echo:", 5) == 0 ||
-          strcmp(cookie, "bad") == 0) {
+          strcmp(cookie, "bad") == 0 ||
+          (strncmp(cookie, "bad", 3) == 0 && cookie[3] >= '0' &&
+           cookie[3] <= '7' && cookie[4] == 0)) {
         if (t->cookie_len >= 8) {
           memcpy(c, t->cookie, 8);
         } else {
@@ -2631,6 +2739,8 @@ static int build_response(const tx_t *t, const char *spec, rsp_t *out,
         }
         if (strcmp(cookie, "bad") == 0) {
           c[0] ^= 0xFF;
+        } else if (strncmp(cookie, "bad", 3) == 0) {
+          c[cookie[3] - '0'] ^= 0x01; /* bad<k>: one bit of byte k */
         }
         cl = 8;
         if (strncmp(cookie, "echo:", 5) == 0) {
@@ -3990,6 +4100,31 @@ static void parse_config(char *cfgtext, cfg_t *c)
       G.tfo = v != 0;
       continue;
     }
+    if (strcmp(k, "qdump") == 0 && isnum) {
+      G.qdump = v != 0;
+      continue;
+    }
+    if (strcmp(k, "idlist") == 0) {
+      char *save = NULL;
+      char *t;
+      int   bad = 0;
+      G.nidlist = 0;
+      for (t = strtok_r(val, ",", &save); t != NULL;
+           t = strtok_r(NULL, ",", &save)) {
+        long id;
+        if (!parse_long(t, &id) || id < 0 || id > 65535 ||
+            G.nidlist >= (int)(sizeof(G.idlist) / sizeof(G.idlist[0]))) {
+          bad = 1;
+          break;
+        }
+        G.idlist[G.nidlist++] = (unsigned short)id;
+      }
+      if (bad) {
+        G.nidlist = 0;
+        ev("BADCFG %s", k);
+      }
+      continue;
+    }
     if (strcmp(k, "connectlater") == 0 && isnum) {
       G.connectlater = v != 0;
       continue;
@@ -4288,6 +4423,7 @@ void sim_run_case(long idx, const char *line)
     if (*p) {
       ev("OP %zu %s", G.opno, p);
       exec_op(p, 0);
+      qstate_dump();
       G.opno++;
     }
     p = semi ? semi + 1 : NULL;
@@ -4343,6 +4479,7 @@ void sim_run_case(long idx, const char *line)
   unsetenv("LOCALDOMAIN");
   unsetenv("RES_OPTIONS");
   unsetenv("HOSTALIASES");
+  free(G.qdump_last);
   free(copy);
   memset(&G, 0, sizeof(G));
 }
